@@ -1,9 +1,55 @@
 //go:build verif
 
 // Contracts for the verification machinery in /verif (comment-only; compiled only with -tags verif).
+// Syntax and semantics: /verif/DESIGN.md section 2.
 package common
 
 //@ func UseMemory
 //@   inline
 //@ func UseComputation
 //@   inline
+//@ func NewBigIntMemoryUsage
+//@   inline
+//@ func minSliceLength
+//@   inline
+
+//@ func NewBigIntsWordSliceOperation
+//@   requires v != nil && o != nil
+//@   nofail
+
+// ---- C32: each estimate is at least the size (8 bytes per word) of the result of the operation it is for
+//@ func NewPlusBigIntMemoryUsage
+//@   requires a != nil && b != nil
+//@   assume L_words_add(big(a), big(b))
+//@   nofail
+//@   ensures[C32] result.Amount >= 8 * words(big(a) + big(b))
+//@   replay metering
+//@ func NewMinusBigIntMemoryUsage
+//@   requires a != nil && b != nil
+//@   assume L_words_sub(big(a), big(b))
+//@   nofail
+//@   ensures[C32] result.Amount >= 8 * words(big(a) - big(b))
+//@   replay metering
+//@ func NewMulBigIntMemoryUsage
+//@   requires a != nil && b != nil
+//@   assume L_words_mul(big(a), big(b))
+//@   nofail
+//@   ensures[C32] result.Amount >= 8 * words(big(a) * big(b))
+//@   replay metering
+//@ func NewModBigIntMemoryUsage
+//@   requires a != nil && b != nil
+//@   assume L_words_rem(big(a), big(b)) && L_words_quo(big(a), big(b)) && L_words_mono(big(a), big(b)) && L_words_mono(big(b), big(a)) && L_words_basic(trem(big(a), big(b))) && L_words_basic(tdiv(big(a), big(b)))
+//@   nofail
+//@   ensures[C32] big(b) != 0 ==> result.Amount >= 8 * words(trem(big(a), big(b)))
+//@   ensures[C32] big(b) != 0 && words(big(b)) < 100 ==> result.Amount >= 8 * words(tdiv(big(a), big(b)))
+//@   replay metering
+//@ func NewDivBigIntMemoryUsage
+//@   requires a != nil && b != nil
+//@   nofail
+//@   ensures[C32] big(b) != 0 && words(big(b)) < 100 ==> result.Amount >= 8 * words(tdiv(big(a), big(b)))
+//@   replay metering
+//@ func NewNegateBigIntMemoryUsage
+//@   requires b != nil
+//@   nofail
+//@   ensures[C32] result.Amount >= 8 * words(-big(b))
+//@   replay metering
